@@ -186,6 +186,8 @@ class Lexer:
         line = 1
         column = 0
         updatepos = True
+        startline = 1
+        startcolumn = 0
         while pos < len(self.script):
             ch = self.script[pos]
             pos += 1
@@ -197,6 +199,11 @@ class Lexer:
                     column += 1
             updatepos = True
 
+            if state == 0:
+                # a token starting here starts at this character
+                startline = line
+                startcolumn = column
+
             if state == 0:  # Eat whitespace
                 if ch == "#":
                     state = 9
@@ -204,7 +211,7 @@ class Lexer:
                     token += ch
                     state = 10
                 elif ch in "()[],;":
-                    here = SourcePos(fname, line, column)
+                    here = SourcePos(fname, startline, startcolumn)
                     self.tokens.append(Token(ch, "interpunction", here))
                 elif ch == "/":
                     state = 5
@@ -227,19 +234,19 @@ class Lexer:
             elif state == 1:  # normal token
                 if ch in "()+-*/%[]<>=,;!\"' \t\r\n#":
                     if token == "TRUE":
-                        here = SourcePos(fname, line, column - len("TRUE"))
+                        here = SourcePos(fname, startline, startcolumn)
                         self.tokens.append(Token("TRUE", "boolean", here))
                         token = ""
                     elif token == "FALSE":
-                        here = SourcePos(fname, line, column - len("TRUE"))
+                        here = SourcePos(fname, startline, startcolumn)
                         self.tokens.append(Token("FALSE", "boolean", here))
                         token = ""
                     elif token in KEYWORDS:
-                        here = SourcePos(fname, line, column - len(token))
+                        here = SourcePos(fname, startline, startcolumn)
                         self.tokens.append(Token(token, "keyword", here))
                         token = ""
                     elif token:
-                        here = SourcePos(fname, line, column - len(token))
+                        here = SourcePos(fname, startline, startcolumn)
                         self.tokens.append(Token(token, "identifier", here))
                         token = ""
                     pos -= 1
@@ -248,7 +255,7 @@ class Lexer:
                 else:
                     token += ch
                     if token == "...":
-                        here = SourcePos(fname, line, column - len(token))
+                        here = SourcePos(fname, startline, startcolumn)
                         self.tokens.append(Token(token, "interpunction", here))
                         token = ""
                         state = 0
@@ -256,18 +263,18 @@ class Lexer:
             elif state == 2:  # <>, <=, >=, ==, <<, >>, <<<, >>>, !>, <*, *>
                 if ch == "=":
                     token += ch
-                    here = SourcePos(fname, line, column - len(token) - 1)
+                    here = SourcePos(fname, startline, startcolumn)
                     self.tokens.append(Token(token, "operator", here))
                     token = ""
                     state = 0
                 elif ch == ">" and token == "=":
                     token += ch
-                    here = SourcePos(fname, line, column - len(token) - 1)
+                    here = SourcePos(fname, startline, startcolumn)
                     self.tokens.append(Token(token, "interpunction", here))
                     token = ""
                     state = 0
                 elif ch == ">" and token == "<":
-                    here = SourcePos(fname, line, column - 1)
+                    here = SourcePos(fname, startline, startcolumn)
                     self.tokens.append(Token("<>", "operator", here))
                     token = ""
                     state = 0
@@ -279,17 +286,17 @@ class Lexer:
                     state = 21
                 elif ch == ">" and token == "!":
                     token += ch
-                    here = SourcePos(fname, line, column - len(token) - 1)
+                    here = SourcePos(fname, startline, startcolumn)
                     self.tokens.append(Token("!>", "operator", here))
                     token = ""
                     state = 0
                 elif ch == "*" and token == "<":
-                    here = SourcePos(fname, line, column - 1)
+                    here = SourcePos(fname, startline, startcolumn)
                     self.tokens.append(Token("<*", "interpunction", here))
                     token = ""
                     state = 0
                 else:
-                    here = SourcePos(fname, line, column - len(token))
+                    here = SourcePos(fname, startline, startcolumn)
                     self.tokens.append(Token(token, "operator", here))
                     token = ""
                     pos -= 1
@@ -298,17 +305,17 @@ class Lexer:
 
             elif state == 21:  # <<, >>, <<<, >>>
                 if ch == "<" and token == "<<":
-                    here = SourcePos(fname, line, column - 3)
+                    here = SourcePos(fname, startline, startcolumn)
                     self.tokens.append(Token("<<<", "interpunction", here))
                     token = ""
                     state = 0
                 elif ch == ">" and token == ">>":
-                    here = SourcePos(fname, line, column - 3)
+                    here = SourcePos(fname, startline, startcolumn)
                     self.tokens.append(Token(">>>", "interpunction", here))
                     token = ""
                     state = 0
                 else:
-                    here = SourcePos(fname, line, column - len(token))
+                    here = SourcePos(fname, startline, startcolumn)
                     self.tokens.append(Token(token, "interpunction", here))
                     token = ""
                     pos -= 1
@@ -317,7 +324,7 @@ class Lexer:
 
             elif state == 3:  # double quotes
                 if ch == '"':
-                    here = SourcePos(fname, line, column - len(token) - 2 + 1)
+                    here = SourcePos(fname, startline, startcolumn)
                     self.tokens.append(Token(token, "string", here))
                     token = ""
                     state = 0
@@ -360,7 +367,7 @@ class Lexer:
 
             elif state == 4:  # single quote
                 if ch == "'":
-                    here = SourcePos(fname, line, column - len(token) - 2 + 1)
+                    here = SourcePos(fname, startline, startcolumn)
                     self.tokens.append(Token(token, "string", here))
                     token = ""
                     state = 0
@@ -406,11 +413,11 @@ class Lexer:
                     token += "//"
                     state = 6
                 elif ch == "=":
-                    here = SourcePos(fname, line, column - 1)
+                    here = SourcePos(fname, startline, startcolumn)
                     self.tokens.append(Token("/=", "operator", here))
                     state = 0
                 else:
-                    here = SourcePos(fname, line, column - 1)
+                    here = SourcePos(fname, startline, startcolumn)
                     self.tokens.append(Token("/", "operator", here))
                     pos -= 1
                     updatepos = False
@@ -419,7 +426,7 @@ class Lexer:
             elif state == 6:  # pattern
                 token += ch
                 if token.endswith("//"):
-                    here = SourcePos(fname, line, column - len(token) - 4 + 1)
+                    here = SourcePos(fname, startline, startcolumn)
                     self.tokens.append(Token(token, "pattern", here))
                     token = ""
                     state = 0
@@ -431,7 +438,7 @@ class Lexer:
                 elif ch in "0123456789_":
                     token += ch
                 elif ch in "()[]<>=! \t\n\r+-*/%,;#":
-                    here = SourcePos(fname, line, column - len(token))
+                    here = SourcePos(fname, startline, startcolumn)
                     token = token.replace("_", "")
                     self.tokens.append(Token(token, "int", here))
                     token = ""
@@ -459,7 +466,7 @@ class Lexer:
                 if ch in "0123456789abcdefABCDEF_":
                     token += ch
                 elif ch in "()[]<>=! \t\n\r+-*/%,;#":
-                    here = SourcePos(fname, line, column - len(token))
+                    here = SourcePos(fname, startline, startcolumn)
                     try:
                         token = str(int(token.replace("_", ""), 16))
                     except ValueError:
@@ -477,7 +484,7 @@ class Lexer:
                 if ch in "01_":
                     token += ch
                 elif ch in "()[]<>=! \t\n\r+-*/%,;#":
-                    here = SourcePos(fname, line, column - len(token))
+                    here = SourcePos(fname, startline, startcolumn)
                     try:
                         token = str(int(token.replace("_", ""), 2))
                     except ValueError:
@@ -495,7 +502,7 @@ class Lexer:
                 if ch in "0123456789_":
                     token += ch
                 elif ch in "()[]<>=! \t\n\r+-*/%,;#":
-                    here = SourcePos(fname, line, column - len(token))
+                    here = SourcePos(fname, startline, startcolumn)
                     token = token.replace("_", "")
                     self.tokens.append(Token(token, "decimal", here))
                     token = ""
@@ -513,22 +520,22 @@ class Lexer:
             elif state == 10:  # potentially composite assign or -> or *>
                 if ch == "=":
                     token += ch
-                    here = SourcePos(fname, line, column)
+                    here = SourcePos(fname, startline, startcolumn)
                     self.tokens.append(Token(token, "operator", here))
                     token = ""
                     state = 0
                 elif token == "-" and ch == ">":
-                    here = SourcePos(fname, line, column)
+                    here = SourcePos(fname, startline, startcolumn)
                     self.tokens.append(Token("->", "operator", here))
                     token = ""
                     state = 0
                 elif token == "*" and ch == ">":
-                    here = SourcePos(fname, line, column)
+                    here = SourcePos(fname, startline, startcolumn)
                     self.tokens.append(Token("*>", "interpunction", here))
                     token = ""
                     state = 0
                 else:
-                    here = SourcePos(fname, line, column)
+                    here = SourcePos(fname, startline, startcolumn)
                     self.tokens.append(Token(token, "operator", here))
                     token = ""
                     pos -= 1
